@@ -33,7 +33,7 @@ def getVerilogModuleName(obj:Logic, noInstanceNumber=False):
 
     '''
     if (has_method(obj, 'structureName')):
-        return obj.structureName()
+        return obj.structureName() + getSharedPortsSuffix(obj)
     
     str = type(obj).__name__  
     if (not(noInstanceNumber)):
@@ -41,6 +41,21 @@ def getVerilogModuleName(obj:Logic, noInstanceNumber=False):
         str += "_" +sid[2:] 
         
     return str
+
+def getSharedPortsSuffix(obj:Logic):
+    '''
+    The body of a module names its nets after the wires of the instance it is
+    generated from. If that instance has one wire attached to several of its
+    ports, the body is only valid for instances that share the same ports,
+    so those instances get a module of their own.
+    '''
+    groups = {}
+    for p in list(obj.inPorts) + list(obj.outPorts):
+        if not(p.wire is None):
+            groups.setdefault(p.wire, []).append(p.name)
+            
+    shared = sorted(['_'.join(names) for names in groups.values() if len(names) > 1])
+    return ''.join(['_same_' + x for x in shared])
 
 def getWidthInfo(w:Wire):
     ww = w.getWidth()
